@@ -14,6 +14,11 @@ def step : List String → String
     | some mg, some typ, some gas, some gp, some tip, some cap, some base =>
       if ethFloorAccept mg typ gas gp tip cap base then "accept" else "reject"
     | _, _, _, _, _, _, _ => "bad-op"
+  | ["efloor2", mg, base, t1, g1, p1, i1, c1, t2, g2, p2, i2, c2] =>
+    match mg.toNat?, base.toNat?, [t1, g1, p1, i1, c1, t2, g2, p2, i2, c2].mapM String.toNat? with
+    | some mg, some base, some [t1, g1, p1, i1, c1, t2, g2, p2, i2, c2] =>
+      if ethFloorAcceptTx mg base [(t1, g1, p1, i1, c1), (t2, g2, p2, i2, c2)] then "accept" else "reject"
+    | _, _, _ => "bad-op"
   | ["vfee", typ, gas, gp, tip, cap, base] =>
     match typ.toNat?, gas.toNat?, gp.toNat?, tip.toNat?, cap.toNat?, base.toNat? with
     | some typ, some gas, some gp, some tip, some cap, some base =>
